@@ -157,7 +157,22 @@ fn run(case: &Val) -> Val {
     } else {
         None
     };
-    let roller: Box<dyn Roll> = if kind == 0 {
+    // every seventh case the roller is DECLARED: `kind: fixed_window` with pattern / count / base in a configuration
+    // document, built by the deserializer registered for that kind (same pattern text, same numbers)
+    let declared = kind == 0 && turn % 7 == 5;
+    let roller: Box<dyn Roll> = if declared {
+        let doc = format!(
+            "{{\"pattern\": {}, \"count\": {}, \"base\": {}}}",
+            serde_json::to_string(&pattern).expect("json string"),
+            count,
+            base
+        );
+        let tree = if turn % 2 == 0 { serde_yaml::from_str(&doc).expect("document") } else { serde_json::from_str(&doc).expect("document") };
+        match log4rs::config::Deserializers::default().deserialize::<dyn Roll>("fixed_window", tree) {
+            Ok(r) => r,
+            Err(_) => return Val::err(1),
+        }
+    } else if kind == 0 {
         match FixedWindowRoller::builder()
             .base(u32::try_from(base).expect("base is a u32"))
             .build(&pattern, u32::try_from(count).expect("count is a u32"))
